@@ -45,30 +45,27 @@ def vocab():
 def find_entry(entries, isa, mnemonic, kinds, wildcard_pos=None):
     """first entry in file order (after the documented suffix fall-back) the reference accepts;
     with wildcard_pos the operand at that position matches any *register* pattern"""
-    for name in (mnemonic, mnemonic[:-1] if mnemonic[-1] in "bswlqt" else None):
-        if name is None:
-            continue
+    names = [mnemonic]
+    if isa == "x86" and mnemonic[-1] in "bswlqt":
+        names.append(mnemonic[:-1])
+    for name in names:
         for e in entries:
             if name.upper() not in [n.upper() for n in c07.names_of(e)]:
                 continue
             pats = e.get("operands") or []
             if len(pats) != len(kinds):
                 continue
-            ok = True
+            rs = []
             for k, (p, kd) in enumerate(zip(pats, kinds)):
                 if k == wildcard_pos:
-                    if p.get("class") != "register":
-                        ok = False
+                    rs.append(p.get("class") == "register")
                 else:
-                    r = RM.match("x86", p, kd)
-                    if r is None:
-                        return "unspecified"
-                    if not r:
-                        ok = False
-                if not ok:
-                    break
-            if ok:
-                return e
+                    rs.append(RM.match(isa, p, kd))
+            if any(r is False for r in rs):
+                continue
+            if any(r is None for r in rs):
+                return "unspecified"
+            return e
     return None
 
 
